@@ -28,7 +28,9 @@ def tmpdir():
     return _TMP
 
 
-FORMS = ("c", "c", "fortran", "strided", "readonly", "lists", "tuples", "rowlist", "int64", "float32")
+# no float32 form: single-precision rows make numba evaluate the metric in single precision, so the RESULTS differ from the
+# float64 reference even when the values are representable (a false alarm of the thorough tier on 2026-10-01)
+FORMS = ("c", "c", "fortran", "strided", "readonly", "lists", "tuples", "rowlist", "int64")
 
 
 def present(X, rng, forms=FORMS):
